@@ -487,6 +487,7 @@ func runScenario(sc scenario) {
 		chatty.Close()
 		run.Count("chatty-requests-sent", chatty.sent.Load())
 		run.Count("chatty-requests-answered", chatty.answered.Load())
+		run.Count("chatty-plays-refused-by-handler", chatty.refused.Load())
 		if v := chatty.mismatch.Load(); v != nil {
 			fail("chatty-reader/stream-desynchronised", "raw reader sending in-session requests during PLAY: "+v.(string), nil)
 		}
